@@ -245,7 +245,66 @@ func serveRunCache(line string, cache dnsserver.CacheConfig) (string, string) {
 	if len(errs) != 0 && len(errs) != len(backendNames) {
 		verdict = "FAIL:compile-outcome-differs"
 	}
+	// C10, read off the data file directly: a name without any client-subnet ('8') map must be
+	// answered with scope 0, whatever subnets the file declares
+	ecsMaps := ecsMapOwners(lines)
+	for i, q := range qs {
+		if q.ecs == nil || hasEcsMap(ecsMaps, q.name) {
+			continue
+		}
+		for _, b := range backendNames {
+			if _, bad := errs[b]; bad {
+				continue
+			}
+			if m := ecsScopeRe.FindStringSubmatch(res[b][i]); m != nil && m[1] != "0" && verdict == "ok" {
+				verdict = fmt.Sprintf("FAIL:scope-%s-for-a-name-without-client-subnet-map@q%d(%s)", m[1], i, b)
+			}
+		}
+	}
 	return strings.Join(out, "#"), verdict
+}
+
+var ecsScopeRe = regexp.MustCompile(`opt\(e\d+/\d+/(\d+)/`)
+
+// ecsMapOwners lists the owners of the '8' lines of a data file (lower-case, without trailing
+// dot; wildcard owners keep their "*." prefix).
+func ecsMapOwners(lines []string) []string {
+	var out []string
+	for _, l := range lines {
+		l = strings.TrimLeft(l, " ")
+		if len(l) < 2 || l[0] != '8' {
+			continue
+		}
+		sep := ","
+		if i := strings.IndexAny(l, ",:"); i >= 0 {
+			sep = l[i : i+1]
+		}
+		out = append(out, strings.ToLower(strings.TrimSuffix(strings.Split(l[1:], sep)[0], ".")))
+	}
+	return out
+}
+
+// hasEcsMap: an exact map at the name, or a wildcard map at a proper ancestor (or the root).
+func hasEcsMap(owners []string, qname string) bool {
+	n := strings.ToLower(strings.TrimSuffix(qname, "."))
+	for _, o := range owners {
+		if o == n {
+			return true
+		}
+		if strings.HasPrefix(o, "*") {
+			p := strings.TrimPrefix(strings.TrimPrefix(o, "*"), ".")
+			if p == "" || strings.HasSuffix(n, "."+p) {
+				return true
+			}
+			if strings.Contains(o, "\\") {
+				return true // escaped owner: do not judge
+			}
+		}
+		if strings.Contains(o, "\\") {
+			return true
+		}
+	}
+	return false
 }
 
 var addrRRre = regexp.MustCompile(`[0-9a-f]+/(1|28)/\d+/\d+/[0-9a-f]+`)
